@@ -102,6 +102,16 @@ def main():
                 k = t.split('(')[0] or '<none>'
                 hist[k] = hist.get(k, 0) + 1
         chk.coverage['check_language_tag_histogram'] = hist
+        src = {}
+        for c in cases:
+            try:
+                o = C.ref_outside_source(c[1], c[2])
+            except Exception:
+                o = 'reference-failed'
+            k = 'none' if o is None else (o if isinstance(o, str) else ('option' if o[1] == 'command-line' else ('LC_MESSAGES' if o[2] else 'basename')))
+            src[k] = src.get(k, 0) + 1
+        chk.coverage['check_language_outside_source'] = src
+        chk.coverage['check_language_model_nontrivial_fraction'] = round(sum(1 for o in outs if 'tags=' in o and not o.endswith('tags=')) / max(len(outs), 1), 3)
         # end to end: the real CLI in a subprocess on real files vs the model (glue: header parsing, option handling, template flag)
         e2e = C.e2e_cases(rng, (240 if big else 36) * (2 if chk.broken else 1))
         e2e_impl = C.run_e2e(e2e)
@@ -169,7 +179,8 @@ EXPLANATION = (
     '617-key table), iso_tables_loaded + fix_codes_by_data (the loaded tables are what the modelled _read_iso_codes loop builds from '
     'the rows of data/iso-codes); clause 3 - language_tags_iff (whenever check_language returns, its tags with extras and order and '
     'ctx.language equal the reference verdict Spec.LocaleTags, for every option / path / Language / X-Poedit-* values and every '
-    'munch function), cli_language_spec, language_disparity_iff, invalid_language_iff, unable_to_determine_iff, '
+    'munch function), cli_language_spec, source_precedence, language_disparity_iff, invalid_language_iff, unable_to_determine_iff, '
+    'encoding_and_variant_iff, poedit_and_absent_iff, '
     'final_language_none_iff, name_correction_sound/complete, almost_equal_equivalence; NoCrash - check_language_error_kinds, '
     'check_language_nocrash (file type derived from the name), leaf_error_kinds. OUTSTANDING: nothing of the design list. '
     'TEST-LEVEL ONLY: the models of os.path.normpath/basename/splitext, the Unicode tables behind _munch_language_name, and that '
